@@ -1,5 +1,6 @@
 import NixModel.Pure.Version
 import NixModel.Lemmas.C11
+import NixModel.Lemmas.C11Path
 import NixModel.Lemmas.C11Uuid
 
 /-!
@@ -291,65 +292,6 @@ theorem C11_readonly_frame (ro rw : Session) (hro : ro.acc = .rdonly) (d : Disk)
   · intro i r h
     rw [run_rdonly_out ro hro d ops i _ h, step_read, step_read]
 
-/-- an event that a program confined to read-only access may issue -/
-def Ev.passive : Ev → Prop
-  | .open mode _ => mode = modeReadOnly
-  | .op _ => True
-  | .close => True
-  | .remove => False
-
-/-- **Histories.** Over any sequence of sessions on a path in which every open is read-only (any
-number of sessions, any calls in them, opens of a missing or refused file included) the path's
-state never changes. -/
-theorem C11_readonly_history (evs : List Ev) (hp : ∀ e ∈ evs, Ev.passive e) (w : World)
-    (hw : ∀ s, w.sess = some s → s.acc = .rdonly) :
-    (evRun w evs).1.disk = w.disk := by
-  induction evs generalizing w with
-  | nil => rfl
-  | cons e evs ih =>
-    have hstep : (evStep w e).1.disk = w.disk ∧ ∀ s, (evStep w e).1.sess = some s → s.acc = .rdonly := by
-      have hpe := hp e (List.mem_cons_self ..)
-      obtain ⟨disk, sess⟩ := w
-      cases e with
-      | «open» mode fid =>
-        simp only [Ev.passive] at hpe
-        subst hpe
-        cases sess with
-        | some s0 => exact ⟨rfl, hw⟩
-        | none =>
-          cases disk with
-          | none => simp [evStep, C11_missing_readonly]
-          | some d =>
-            have h := C11_readonly_open d fid
-            cases hr : openFile modeReadOnly (some d) fid with
-            | mk d' r =>
-              rw [hr] at h
-              cases r with
-              | error x => simp only [evStep, hr]; exact ⟨h.1, fun s hs => by simp at hs⟩
-              | ok s1 =>
-                simp only [evStep, hr]
-                refine ⟨h.1, fun s hs => ?_⟩
-                simp at hs
-                subst hs
-                rw [h.2 s1 rfl]
-      | op o =>
-        cases sess with
-        | none => exact ⟨rfl, hw⟩
-        | some s0 =>
-          cases disk with
-          | none => exact ⟨rfl, hw⟩
-          | some d =>
-            simp only [evStep]
-            exact ⟨by rw [step_rdonly_disk s0 (hw s0 rfl)], hw⟩
-      | close =>
-        cases sess with
-        | none => exact ⟨rfl, hw⟩
-        | some s0 => simp [evStep]
-      | remove => simp [Ev.passive] at hpe
-    have := ih (fun e he => hp e (List.mem_cons_of_mem _ he)) (evStep w e).1 hstep.2
-    show (evRun (evStep w e).1 evs).1.disk = w.disk
-    rw [this, hstep.1]
-
 /-- opening an existing file with any letter but the overwrite one — read-only, read-write or an
 invalid one — keeps header and content, whatever the outcome -/
 theorem C11_open_keeps (mode : Str) (hm : mode ≠ modeOverwrite) (d : Disk) (fid : Str) :
@@ -370,6 +312,237 @@ theorem C11_open_keeps (mode : Str) (hm : mode ≠ modeOverwrite) (d : Disk) (fi
           · simp only [finishOpen, hro, if_true, hc]; exact ⟨d, rfl, rfl, rfl⟩
         · simp only [finishOpen, hro, if_false]; exact ⟨_, rfl, rfl, rfl⟩
 
+/-! ## paths in every condition: `File.__init__` over the shape regenerated from the source -/
+
+/-- **The shape of `File.__init__`.** The guards, the create-or-open condition, the rebound mode and
+the ordered tail regenerated from the source make `File.__init__`, on a missing path and on every
+HDF5 file, exactly the function `openFile` the theorems above are about — for every mode string. -/
+theorem C11_init_shape (mode : Str) (disk : Option Disk) (fid : Str) :
+    openPath mode (Node.ofDisk disk) fid
+      = (Node.ofDisk (openFile mode disk fid).1, (openFile mode disk fid).2) :=
+  openPath_ofDisk mode disk fid
+
+/-- **The default mode is read-write**: `File(path)` and `File.open(path)` without a mode are the
+read-write open, on every path -/
+theorem C11_default_mode (n : Node) (fid : Str) :
+    defaultModeInit = modeReadWrite ∧ defaultModeOpen = modeReadWrite
+    ∧ openDefault n fid = openPath modeReadWrite n fid := ⟨rfl, rfl, rfl⟩
+
+/-- **An existing path that libhdf5 cannot open** — a file that is not HDF5, a truncated copy, an
+empty file, a directory — is refused in every mode but Overwrite (read-only, the default read-write
+mode, any invalid letter) and keeps exactly what it held: it is never taken for a missing file. -/
+theorem C11_unopenable_kept (mode : Str) (hm : mode ≠ modeOverwrite) (n : Node) (hn : Node.unopenable n) (fid : Str) :
+    ∃ r, openPath mode n fid = (n, .error r) :=
+  openPath_unopenable mode hm n hn fid
+
+/-- **Overwrite** replaces whatever file the path holds (NIX, other HDF5, not HDF5, truncated,
+empty) by an empty file with a fresh header; a directory is refused and left alone -/
+theorem C11_overwrite_any (n : Node) (fid : Str) (hu : uuidAccepts fid = true) :
+    (∀ t, n ≠ .dir t) → openPath modeOverwrite n fid = (.hdf (freshFile fid), .ok ⟨modeOverwrite, .trunc⟩) := by
+  intro hd
+  have fresh : checkAndFinishT modeOverwrite .trunc (freshDisk fid)
+      = (.hdf (freshFile fid), .ok ⟨modeOverwrite, .trunc⟩) := by
+    rw [checkAndFinishT_eq]
+    simp [checkAndFinish, fresh_header_ok fid hu, finishOpen, liftR, Node.ofDisk]
+    rfl
+  cases n with
+  | missing =>
+    have := C11_init_shape modeOverwrite none fid
+    simp only [Node.ofDisk] at this
+    rw [this, (C11_overwrite_fresh none fid hu).1]
+  | hdf d =>
+    have := C11_init_shape modeOverwrite (some d) fid
+    simp only [Node.ofDisk] at this
+    rw [this, (C11_overwrite_fresh (some d) fid hu).1]
+  | dir t => exact absurd rfl (hd t)
+  | blob t e =>
+    cases e with
+    | true =>
+      simp only [openPath, guards_empty, if_true, createCond_exists modeOverwrite (.blob t true) (by simp),
+        decide_true, createMode, mapFileMode_ow, ne_eq, not_true_eq_false, if_false, fresh]
+    | false =>
+      simp only [openPath, guards_blob, createCond_exists modeOverwrite (.blob t false) (by simp),
+        decide_true, if_true, createMode, mapFileMode_ow, ne_eq, not_true_eq_false, if_false, fresh]
+
+theorem C11_overwrite_dir (t fid : Str) :
+    openPath modeOverwrite (.dir t) fid = (.dir t, .error .osError) := by
+  simp only [openPath, guards_dir, createCond_exists modeOverwrite (.dir t) (by simp), decide_true, if_true,
+    createMode, mapFileMode_ow, ne_eq, not_true_eq_false, if_false]
+
+/-- **A refused open changes nothing** — for every path condition and every mode string: whenever
+`File.__init__` raises, the path holds exactly what it held (`_check_header` runs before the first
+write of the tail; an empty file is refused before libhdf5 initialises it). -/
+theorem C11_refused_unchanged (mode : Str) (n : Node) (fid : Str) (hu : uuidAccepts fid = true) (r : Refusal)
+    (h : (openPath mode n fid).2 = .error r) : (openPath mode n fid).1 = n := by
+  have hfile : ∀ disk : Option Disk, (openFile mode disk fid).2 = .error r → (openFile mode disk fid).1 = disk := by
+    intro disk hr
+    cases disk with
+    | none =>
+      by_cases hm : mode = modeReadOnly
+      · subst hm; rw [C11_missing_readonly]
+      · rw [C11_missing_creates mode fid hm hu] at hr; simp at hr
+    | some d =>
+      by_cases hm : mode = modeOverwrite
+      · subst hm; rw [(C11_overwrite_fresh (some d) fid hu).1] at hr; simp at hr
+      · simp only [openFile, hm, if_false] at hr ⊢
+        cases hmm : mapFileMode mode with
+        | error e => rfl
+        | ok a =>
+          simp only [hmm] at hr ⊢
+          by_cases ht : a = .trunc
+          · simp [ht]
+          · simp only [ht, if_false, checkAndFinish] at hr ⊢
+            cases hch : checkHeader mode d.header with
+            | error e => rfl
+            | ok u =>
+              simp only [hch] at hr ⊢
+              by_cases hro : a = .rdonly
+              · by_cases hc : (d.hasData && d.hasMeta && d.hasCreated && d.hasUpdated) = true
+                · simp [finishOpen, hro, hc] at hr
+                · simp [finishOpen, hro, hc]
+              · simp [finishOpen, hro] at hr
+  cases n with
+  | missing =>
+    have e := C11_init_shape mode none fid
+    simp only [Node.ofDisk] at e
+    rw [e] at h ⊢
+    simp only at h ⊢
+    rw [hfile none h]
+  | hdf d =>
+    have e := C11_init_shape mode (some d) fid
+    simp only [Node.ofDisk] at e
+    rw [e] at h ⊢
+    simp only at h ⊢
+    rw [hfile (some d) h]
+  | dir t =>
+    by_cases hm : mode = modeOverwrite
+    · subst hm; rw [C11_overwrite_dir]
+    · obtain ⟨r', hr'⟩ := C11_unopenable_kept mode hm (.dir t) trivial fid
+      rw [hr']
+  | blob t e =>
+    by_cases hm : mode = modeOverwrite
+    · subst hm
+      rw [C11_overwrite_any (.blob t e) fid hu (by intro t'; simp)] at h
+      simp at h
+    · obtain ⟨r', hr'⟩ := C11_unopenable_kept mode hm (.blob t e) trivial fid
+      rw [hr']
+
+/-- the path still holds what it held: an HDF5 file keeps header and content (an open may have
+added the two top-level groups / timestamps), anything else is the same byte for byte -/
+def Node.keeps : Node → Node → Prop
+  | .hdf d, .hdf d' => d'.header = d.header ∧ d'.content = d.content
+  | .hdf _, _ => False
+  | n, n' => n' = n
+
+theorem Node.keeps_refl (n : Node) : Node.keeps n n := by cases n <;> simp [Node.keeps]
+
+theorem Node.keeps_trans {a b c : Node} (h1 : Node.keeps a b) (h2 : Node.keeps b c) : Node.keeps a c := by
+  cases a <;> cases b <;> cases c <;> simp_all [Node.keeps]
+
+/-- **Only Overwrite replaces what exists.** Opening an EXISTING path — in whatever condition — with
+any letter but the Overwrite one (read-only, read-write, the default, an invalid one), accepted or
+refused, keeps what the path holds. -/
+theorem C11_existing_kept (mode : Str) (hm : mode ≠ modeOverwrite) (n : Node) (hn : n ≠ .missing) (fid : Str) :
+    Node.keeps n (openPath mode n fid).1 := by
+  cases n with
+  | missing => exact absurd rfl hn
+  | hdf d =>
+    have e := C11_init_shape mode (some d) fid
+    simp only [Node.ofDisk] at e
+    rw [e]
+    obtain ⟨d', h1, h2, h3⟩ := C11_open_keeps mode hm d fid
+    simp only [h1, Node.keeps]
+    exact ⟨h2, h3⟩
+  | dir t =>
+    obtain ⟨r', hr'⟩ := C11_unopenable_kept mode hm (.dir t) trivial fid
+    rw [hr']; exact Node.keeps_refl _
+  | blob t e =>
+    obtain ⟨r', hr'⟩ := C11_unopenable_kept mode hm (.blob t e) trivial fid
+    rw [hr']; exact Node.keeps_refl _
+
+/-- **Read-only never changes a path**, whatever it holds, and yields only read-only handles -/
+theorem C11_readonly_path (n : Node) (fid : Str) :
+    (openPath modeReadOnly n fid).1 = n
+    ∧ ∀ s, (openPath modeReadOnly n fid).2 = .ok s → s = ⟨modeReadOnly, .rdonly⟩ := by
+  cases n with
+  | missing =>
+    have e := C11_init_shape modeReadOnly none fid
+    simp only [Node.ofDisk] at e
+    rw [e, C11_missing_readonly]
+    exact ⟨rfl, fun s hs => by simp at hs⟩
+  | hdf d =>
+    have e := C11_init_shape modeReadOnly (some d) fid
+    simp only [Node.ofDisk] at e
+    rw [e]
+    have h := C11_readonly_open d fid
+    exact ⟨by simp [h.1], h.2⟩
+  | dir t =>
+    obtain ⟨r', hr'⟩ := C11_unopenable_kept modeReadOnly ro_ne_ow (.dir t) trivial fid
+    rw [hr']; exact ⟨rfl, fun s hs => by simp at hs⟩
+  | blob t e =>
+    obtain ⟨r', hr'⟩ := C11_unopenable_kept modeReadOnly ro_ne_ow (.blob t e) trivial fid
+    rw [hr']; exact ⟨rfl, fun s hs => by simp at hs⟩
+
+/-! ## histories -/
+
+/-- an event that a program confined to read-only access may issue -/
+def Ev.passive : Ev → Prop
+  | .open mode _ => mode = modeReadOnly
+  | .op _ => True
+  | .close => True
+  | .remove => False
+
+/-- **Histories.** Over any sequence of sessions on a path — in whatever condition — in which every
+open is read-only (any number of sessions, any calls in them, opens of a missing, unreadable or
+refused file included) the path's state never changes. -/
+theorem C11_readonly_history (evs : List Ev) (hp : ∀ e ∈ evs, Ev.passive e) (w : World)
+    (hw : ∀ s, w.sess = some s → s.acc = .rdonly) :
+    (evRun w evs).1.node = w.node := by
+  induction evs generalizing w with
+  | nil => rfl
+  | cons e evs ih =>
+    have hstep : (evStep w e).1.node = w.node ∧ ∀ s, (evStep w e).1.sess = some s → s.acc = .rdonly := by
+      have hpe := hp e (List.mem_cons_self ..)
+      obtain ⟨node, sess⟩ := w
+      cases e with
+      | «open» mode fid =>
+        simp only [Ev.passive] at hpe
+        subst hpe
+        cases sess with
+        | some s0 => exact ⟨rfl, hw⟩
+        | none =>
+          have h := C11_readonly_path node fid
+          cases hr : openPath modeReadOnly node fid with
+          | mk n' r =>
+            rw [hr] at h
+            cases r with
+            | error x => simp only [evStep, hr]; exact ⟨h.1, fun s hs => by simp at hs⟩
+            | ok s1 =>
+              simp only [evStep, hr]
+              refine ⟨h.1, fun s hs => ?_⟩
+              simp at hs
+              subst hs
+              rw [h.2 s1 rfl]
+      | op o =>
+        cases sess with
+        | none => exact ⟨rfl, hw⟩
+        | some s0 =>
+          cases node with
+          | hdf d =>
+            simp only [evStep]
+            exact ⟨by rw [step_rdonly_disk s0 (hw s0 rfl)], hw⟩
+          | missing => exact ⟨rfl, hw⟩
+          | blob t e => exact ⟨rfl, hw⟩
+          | dir t => exact ⟨rfl, hw⟩
+      | close =>
+        cases sess with
+        | none => exact ⟨rfl, hw⟩
+        | some s0 => simp [evStep]
+      | remove => simp [Ev.passive] at hpe
+    have := ih (fun e he => hp e (List.mem_cons_of_mem _ he)) (evStep w e).1 hstep.2
+    show (evRun (evStep w e).1 evs).1.node = w.node
+    rw [this, hstep.1]
+
 /-- an event that neither overwrites, nor removes, nor calls a mutator -/
 def Ev.conservative : Ev → Prop
   | .open mode _ => mode ≠ modeOverwrite
@@ -378,50 +551,51 @@ def Ev.conservative : Ev → Prop
   | .close => True
   | .remove => False
 
-/-- **Histories, read-write.** Over any sequence of sessions on an existing file that never opens
-with overwrite, never removes the path and calls no mutator — however often it is opened in the
-default read-write mode, read-only, or with a wrong letter, accepted or refused — header and
-content stay what they were. -/
+/-- **Histories, read-write.** Over any sequence of sessions on an existing path — a NIX file, any
+other file, a directory — that never opens with overwrite, never removes the path and calls no
+mutator, however often it is opened in the default read-write mode, read-only, or with a wrong
+letter, accepted or refused: the path keeps what it held (header and content of an HDF5 file,
+every byte of anything else). -/
 theorem C11_conservative_history (evs : List Ev) (hp : ∀ e ∈ evs, Ev.conservative e) (sess : Option Session)
-    (d : Disk) :
-    ∃ d', (evRun ⟨some d, sess⟩ evs).1.disk = some d' ∧ d'.header = d.header ∧ d'.content = d.content := by
-  induction evs generalizing sess d with
-  | nil => exact ⟨d, rfl, rfl, rfl⟩
+    (n : Node) (hn : n ≠ .missing) :
+    Node.keeps n (evRun ⟨n, sess⟩ evs).1.node ∧ (evRun ⟨n, sess⟩ evs).1.node ≠ .missing := by
+  induction evs generalizing sess n with
+  | nil => exact ⟨Node.keeps_refl n, hn⟩
   | cons e evs ih =>
     have hpe := hp e (List.mem_cons_self ..)
-    have hstep : ∃ d1 s1, (evStep ⟨some d, sess⟩ e).1 = ⟨some d1, s1⟩ ∧ d1.header = d.header ∧ d1.content = d.content := by
+    have keeps_ne : ∀ n' : Node, Node.keeps n n' → n' ≠ .missing := by
+      intro n' hk
+      cases n <;> cases n' <;> simp_all [Node.keeps]
+    have hstep : Node.keeps n (evStep ⟨n, sess⟩ e).1.node := by
       cases e with
       | «open» mode fid =>
         simp only [Ev.conservative] at hpe
         cases sess with
-        | some s0 => exact ⟨d, some s0, rfl, rfl, rfl⟩
+        | some s0 => exact Node.keeps_refl n
         | none =>
-          obtain ⟨d', h1, h2, h3⟩ := C11_open_keeps mode hpe d fid
-          cases hr : openFile mode (some d) fid with
-          | mk od r =>
-            rw [hr] at h1
-            simp only at h1
-            subst h1
+          have hk := C11_existing_kept mode hpe n hn fid
+          cases hr : openPath mode n fid with
+          | mk n' r =>
+            rw [hr] at hk
             cases r with
-            | error x => exact ⟨d', none, by simp [evStep, hr], h2, h3⟩
-            | ok s1 => exact ⟨d', some s1, by simp [evStep, hr], h2, h3⟩
+            | error x => simpa [evStep, hr] using hk
+            | ok s1 => simpa [evStep, hr] using hk
       | op o =>
         cases o with
         | read r =>
           cases sess with
-          | none => exact ⟨d, none, rfl, rfl, rfl⟩
-          | some s0 => exact ⟨d, some s0, rfl, rfl, rfl⟩
+          | none => exact Node.keeps_refl n
+          | some s0 => cases n <;> exact Node.keeps_refl _
         | mutate f => simp [Ev.conservative] at hpe
       | close =>
         cases sess with
-        | none => exact ⟨d, none, rfl, rfl, rfl⟩
-        | some s0 => exact ⟨d, none, rfl, rfl, rfl⟩
+        | none => exact Node.keeps_refl n
+        | some s0 => exact Node.keeps_refl n
       | remove => simp [Ev.conservative] at hpe
-    obtain ⟨d1, s1, h1, h2, h3⟩ := hstep
-    obtain ⟨d', g1, g2, g3⟩ := ih (fun e he => hp e (List.mem_cons_of_mem _ he)) s1 d1
-    refine ⟨d', ?_, g2.trans h2, g3.trans h3⟩
-    show (evRun (evStep ⟨some d, sess⟩ e).1 evs).1.disk = some d'
-    rw [h1]; exact g1
+    have hne := keeps_ne _ hstep
+    obtain ⟨g1, g2⟩ := ih (fun e he => hp e (List.mem_cons_of_mem _ he)) (evStep ⟨n, sess⟩ e).1.sess
+      (evStep ⟨n, sess⟩ e).1.node hne
+    exact ⟨Node.keeps_trans hstep g1, g2⟩
 
 /-- **The id hypothesis is what `uuid4()` delivers.** Every string of the form `8-4-4-4-12` hex
 digits (either case) is accepted as a file id; so `C11_overwrite_fresh` / `C11_missing_creates`
@@ -458,5 +632,27 @@ example : (openFile modeReadWrite (some (demoFile libVersion (some demoId))) [])
   rfl
 example : (openFile modeReadOnly (some (demoFile [1, 1, 9] none)) []).2
     = if Readable 1 1 then .ok ⟨modeReadOnly, .rdonly⟩ else .error (.err .runtimeError) := by rfl
+
+
+/-! paths in other conditions -/
+def demoText : Node := .blob "2cf6af".toList false
+def demoEmpty : Node := .blob "e3b0c4".toList true
+example : Node.unopenable demoText ∧ Node.unopenable demoEmpty ∧ Node.unopenable (.dir []) := ⟨trivial, trivial, trivial⟩
+/-- the default mode on a text file, an empty file, a directory: refused, nothing changes; the
+empty file is refused by nixio's own guard (InvalidFile), the others by libhdf5 (OSError) -/
+example : openDefault demoText [] = (demoText, .error .osError) := by rfl
+example : openDefault demoEmpty [] = (demoEmpty, .error (.err .invalidFile)) := by rfl
+example : openPath modeReadOnly (.dir []) [] = (.dir [], .error .osError) := by rfl
+/-- an invalid letter on an empty file is reported as such -/
+example : openPath "x".toList demoEmpty [] = (demoEmpty, .error (.err .valueError)) := by rfl
+/-- overwrite replaces the text file; the default mode creates only the missing one -/
+example : openPath modeOverwrite demoText demoId = (.hdf (freshFile demoId), .ok ⟨modeOverwrite, .trunc⟩) := by rfl
+example : openDefault .missing demoId = (.hdf (freshFile demoId), .ok ⟨modeOverwrite, .trunc⟩) := by rfl
+/-- without the guard libhdf5 would initialise the empty file: `h5fOpen` models that, so
+`C11_refused_unchanged` depends on the guard being there -/
+example : h5fOpen .rdwr demoEmpty ≠ none := by decide
+/-- `Node.keeps` is not trivially true -/
+example : ¬ Node.keeps demoText (.hdf (freshFile demoId)) := by simp [Node.keeps, demoText]
+example : ¬ Node.keeps (.hdf (demoFile libVersion (some demoId))) demoText := by simp [Node.keeps, demoText]
 
 end Nix.C11
